@@ -295,6 +295,10 @@ func checkC19(P *Prog, r *Result) {
 			if os.Getenv("ZOGCHECK_DEBUG") != "" {
 				fmt.Println("DEBUG reflike", typeStr(val.Type()), debugRefLike(val.Type()))
 			}
+			if c2, isCall := cvi(val).(*ssa.Call); isCall && isDeepCloneFn(callOf(c2).static) {
+				r.ok("C19/default-not-aliased", c, P.ipos(w.in), "the value stored is a deep clone ("+fname(callOf(c2).static)+")")
+				continue
+			}
 			for _, rt := range P.rootsOf(val) {
 				for _, cl := range P.resolveUnknownParam(g, P.classifyIn(fn, rt), 0, map[*ssa.Parameter]bool{}) {
 					if cl.class == mcSchema {
@@ -324,23 +328,7 @@ func checkC19(P *Prog, r *Result) {
 		}
 		return uniqSorted(bad)
 	}
-	isDeepClone := func(f *ssa.Function) bool {
-		if f == nil || f.Blocks == nil || !inModule(funcPkgPath(f)) {
-			return false
-		}
-		self, alloc := false, false
-		eachInstr(f, func(_ *ssa.BasicBlock, _ int, in ssa.Instruction) {
-			if ci := callOf(in); ci != nil && ci.static != nil {
-				if ci.static == f {
-					self = true
-				}
-				if isPkgFunc(ci.static, "reflect") && (ci.static.Name() == "MakeSlice" || ci.static.Name() == "MakeMapWithSize" || ci.static.Name() == "MakeMap") {
-					alloc = true
-				}
-			}
-		})
-		return self && alloc
-	}
+	isDeepClone := isDeepCloneFn
 	// the value is the result of a deep clone - here, or (for a parameter of an unexported helper) at every call site
 	var clonedHere func(fn *ssa.Function, v ssa.Value, depth int) (bool, string)
 	clonedHere = func(fn *ssa.Function, v ssa.Value, depth int) (bool, string) {
@@ -782,4 +770,23 @@ func (P *Prog) paramStoredInto(ctor *ssa.Function, prm *ssa.Parameter, f *types.
 		})
 	}
 	return found
+}
+
+// isDeepCloneFn: a module function that calls itself and allocates containers with reflect: a recursive clone.
+func isDeepCloneFn(f *ssa.Function) bool {
+	if f == nil || f.Blocks == nil || !inModule(funcPkgPath(f)) {
+		return false
+	}
+	self, alloc := false, false
+	eachInstr(f, func(_ *ssa.BasicBlock, _ int, in ssa.Instruction) {
+		if ci := callOf(in); ci != nil && ci.static != nil {
+			if ci.static == f {
+				self = true
+			}
+			if isPkgFunc(ci.static, "reflect") && (ci.static.Name() == "MakeSlice" || ci.static.Name() == "MakeMapWithSize" || ci.static.Name() == "MakeMap") {
+				alloc = true
+			}
+		}
+	})
+	return self && alloc
 }
